@@ -178,7 +178,7 @@ class C11(Prop):
         ("lib/python/pyflyby/_importclns.py", "ImportSet.conflicting_imports"),
         ("lib/python/pyflyby/_importclns.py", "ImportSet._from_imports"),
     ]
-    quick_cases = 3000
+    quick_cases = 2400
     thorough_cases = 100000
     quick_deadline_s = 60
     thorough_deadline_s = 600
